@@ -27,6 +27,91 @@ CHECKS = {
         "deviation sets differ (the optimisation removes or introduces a known translation defect). Hybrid configurations (one lowering removed) are not deciders: a lowering may rely on another.",
    technique="bounded exhaustive differential translation validation (optimised vs unoptimised SQL on all enumerated graphs)",
    design_ref="4/C02, 10.4"),
+ "C03": dict(level="exploration", engine="E3 enum + pgbind",
+   text="Every statement the real translator emits for the feature-grammar enumeration (all feature sets with <= 2 / <= 3 features over MATCH (n) RETURN n incl. updating clauses, "
+        "parameters and shortest paths: 6.9k / 230k texts, each parsed by the real parser) and for all 1012 corpus queries is bound by pgbind: an own traversal of the pgsql AST with "
+        "PostgreSQL's scoping rules (CTE visibility incl. recursion, FROM items in order, LATERAL, correlated sub-queries, composite field expansion of unnest, GROUP/ORDER output names, "
+        "DML targets, RETURNING, ON CONFLICT) against the schema extracted at run time from schema_up.sql. Every identifier, compound identifier, row-column reference and composite field "
+        "must resolve to exactly one definition; CTE column lists, insert and set-operation arities must match; every @parameter needs a value; DML only with an updating clause.",
+   note="Trusted: pgbind's scope rules match PostgreSQL's analyser; SQL text handed to the plpgsql harness functions is located but not bound (no SQL parser). Anything pgbind does not model is "
+        "counted as outside, never as a violation. 16 failure classes (statements PostgreSQL would reject) are recorded as known findings by (issue, trigger shape of the Cypher query); "
+        "a different defect inside an already recorded trigger shape would be attributed to the recorded class.",
+   technique="bounded exhaustive enumeration of query texts; name resolution of every emitted statement against the schema",
+   design_ref="4/C03, 10.5"),
+ "C04": dict(level="exploration", engine="E3 enum + pglex",
+   text="63 position shapes (string literals in 28 contexts, property and map keys, kind names, variable names, RETURN/WITH/UNWIND aliases, parameter names, parameter values as "
+        "string/list/map key/map value, nine shortest-path shapes) x every string of length <= 2 / <= 3 over a 17-character adversarial alphabet (quotes, backslash, dollar, NUL-free "
+        "controls, comment openers, semicolon, LIKE wildcards, non-ASCII) plus a 25-string pool and a 70,000-character value. The emitted statement and, recursively, every SQL text it "
+        "hands to the *_harness functions are tokenised by pglex (a model of PostgreSQL's scan.l) and compared with the benign twin: identical token kinds, each differing token one "
+        "string/identifier token whose decoded value equals the denoted value (LIKE patterns with wildcards escaped), bound parameters counted separately.",
+   note="Trusted: pglex follows scan.l with standard_conforming_strings=on plus pgx's @name syntax; harness SQL is located syntactically by *_harness( calls.",
+   technique="bounded exhaustive enumeration of hostile values x positions with a lexer-level differential oracle against a benign twin",
+   design_ref="4/C04, 10.5"),
+ "C05": dict(level="model_checking", engine="E3 enum + E1 sched",
+   text="(1) Totality and purity: every enumerated / corpus query (7.9k quick, 231k thorough) x parameter-symbol collisions x 12 parameter-map variants is translated under recover with "
+        "a pointer-aware structural fingerprint of (AST, parameter map) before and after. (2) Determinism: every query translated three times; the 40 shortest structurally distinct "
+        "queries in all ordered pairs against results from fresh processes (history independence). (3) Every interleaving of two and three concurrent translations sharing one kind mapper "
+        "under the controlled scheduler (scheduling points: the mapper's methods), compared with the sequential result. (4) A free-running -race pass.",
+   note="Hang detection is a machinery guard (60 s then three isolated re-runs), no step counter exists without editing /repo. Interleaving points are the kind mapper's methods only.",
+   technique="bounded exhaustive enumeration + stateless schedule enumeration over a shared kind mapper",
+   design_ref="4/C05, 10.5"),
+ "C06": dict(level="exploration", engine="E3 enum",
+   text="For every query of the enumeration / corpus (translatable or rejected) every Variable and Parameter node is renamed consistently: all symbols to fresh names, each single symbol to "
+        "each identifier of the query's own SQL, to the translator's internal name pool (n0, e0, s0, i0, pi0, path, depth ...) and to fresh names, parameter<->variable name collisions, "
+        "permutations, and all injective maps of <= 2 / <= 3 variables into a name pool (607k / 3.8M renamings). Oracle: the token sequence is unchanged except top-level output aliases "
+        "(which must be the renamed alias), equal parameter maps up to key renaming, and the renamed query translates iff the original does.",
+   note="Three failure classes are recorded as known findings (a WITH alias used as a CTE column name, a path variable named n<N>, a path variable named i<N> next to a quantifier).",
+   technique="bounded exhaustive enumeration of consistent renamings with a token-level differential oracle",
+   design_ref="4/C06, 10.5"),
+ "C07": dict(level="exploration", engine="E3 enum (g4 grammar)",
+   text="Every derivation of cypher/grammar/Cypher.g4 (read from the tree under check) with <= k deviations from the cheapest derivation of every rule in its best context and <= k-1 at every "
+        "other grammar position (k = 2 quick, 3 thorough; 87k derivations quick), every corpus query, and every single-token mutation of both. Each accepted text must give a model that "
+        "(a) the emitter can write, (b) whose emitted text parses to an equal model (fixed point), and (c) whose emitted text contains the content tokens of the input (identifiers, literals, "
+        "operators, range bounds) per an independent token oracle; nothing the grammar accepts may be dropped, reinterpreted or replaced without an error.",
+   note="Trusted: the independent token-content oracle (which tokens are content, numeric literal equivalence). 20 failure classes found here were repaired in /repo (fix: commits).",
+   technique="bounded exhaustive grammar-derivation enumeration with a round-trip and token-conservation oracle",
+   design_ref="4/C07, 10.5"),
+ "C08": dict(level="exploration", engine="E3 enum (g4 grammar)",
+   text="Every sequence of length <= 3 / <= 4 over a 30-atom lexical alphabet, every blank-only input of length <= 3, every prefix and suffix of every corpus query (token boundaries quick, every "
+        "rune offset thorough), every grammar derivation with <= 1 / <= 2 deviations, and nesting / length families (n = 1, 2, 4 ... 4096, each in a child process), each under NewContext and "
+        "DefaultCypherContext. Oracle: no panic or process crash; exactly one of (model, error); an accepted model is complete (the project's own emitter can write it and writes something); "
+        "blank inputs rejected; along each doubling family allocation and processor time grow by less than x16 per doubling (degree < 4).",
+   note="Boundedness is decided on allocation (deterministic) and on processor time of the parsing process (not wall clock; only above 50 ms, minimum of 5 repetitions). A family that hits the "
+        "per-input deadline makes the run non-exhaustive, not failing.",
+   technique="bounded exhaustive enumeration of byte/token sequences with totality and step-count oracles",
+   design_ref="4/C08, 10.5"),
+ "C09": dict(level="exploration", engine="E3 enum (g4 grammar)",
+   text="Every grammar derivation (as C07) and every corpus query parsed with DefaultCypherContext: an accepted text must contain no updating clause, procedure call or parameter at any "
+        "depth (checked on the model by reflection and on the ANTLR parse tree), its translation must contain no data-modifying statement, and for every accepted query every insertion of "
+        "an updating clause / CALL / parameter at every grammar position that admits one must be rejected.",
+   note="Trusted: the list of forbidden constructs derived from the grammar's rule names.",
+   technique="bounded exhaustive grammar-derivation enumeration with an insertion-closure oracle",
+   design_ref="4/C09, 10.5"),
+ "C10": dict(level="exploration", engine="E3 enum (builder terms)",
+   text="Every term of the public query-building API inside stated bounds (leaf constructors x value domain, criteria combinators to depth 2/3, patterns, projections, order/skip/limit, "
+        "updates; 74k cases quick) is emitted through every production path (format emitter, Neo4j query builder with its rewriter, v2 builder) and the text is parsed back by the real "
+        "parser. Oracle: same boolean skeleton under all assignments of the leaves to {true,false,null} (grouping), equal leaves (operator, operands, literal type and value, parameters, "
+        "kinds with their all-of / any-of reading), equal projections, ordering, patterns and updating clauses.",
+   note="Emission refused with an error is counted, not judged. Failure classes found here were repaired in /repo (fix: commits).",
+   technique="bounded exhaustive enumeration of builder terms with a parse-back structural-meaning oracle",
+   design_ref="4/C10, 10.5"),
+ "C14": dict(level="exploration", engine="E3 enum (graphs)",
+   text="Every directed multigraph inside the tier's bounds (labelled nodes, every multiset of ordered pairs incl. self loops, parallel and antiparallel edges, isolated nodes) x id profiles "
+        "is built into every container (adjacency map two ways, CSR two ways and through FetchDirectedGraph over a fake database, triple store, every Projection(deletedNodes, deletedEdges) "
+        "and two-step projections). Node set and count and adjacent-node sets per node x {out, in, both} are compared with a naive edge-list model; then Reach, BFSTree distances, Normalize, "
+        "TSBFS/TSDFS terminal segments, MarshalSegment/UnmarshalSegment and SerializedSegment.ToSegment round trips of every maximal walk, and WriteZoneBFSTree -> BFSTreeFile.ReadEach for "
+        "every zone subset (49M comparisons quick). Derived computations are judged only where the primitives agree, so a failure is attributed to its cause.",
+   note="Failure classes found here (DirectionBoth adjacency, BFS tree file framing and reading, SerializedSegment edge index) were repaired in /repo (fix: commits).",
+   technique="bounded exhaustive enumeration of graphs x containers with a naive edge-list oracle",
+   design_ref="4/C14, 10.5"),
+ "C15": dict(level="model_checking", engine="E3 enum (graphs) + E2 bfs",
+   text="Static: for every digraph inside the bounds x container, StronglyConnectedComponents must partition the nodes, agree with naive mutual reachability, and give an acyclic component "
+        "graph. Histories: explicit-state BFS over every sequence of queries (ReachOf, ReachSliceOf, OrReach, XorReach, CanReach for all node pairs, both directions) to the depth bound on a "
+        "real ReachabilityCache per graph x cache capacity; canonical state = complete state of both SIEVE caches (queue order, visited bits, hand, cached bitmaps by content and identity); "
+        "every answer is compared with a plain BFS of the original graph (336k states quick).",
+   note="The defect found here (incomplete reach cached) was repaired in /repo (fix: commit). Cache state is read through a verif-tagged overlay accessor. 'Reaches' is reflexive, OrReach/XorReach leave the queried node out, as documented.",
+   technique="bounded exhaustive graph enumeration x explicit-state BFS over query histories against a naive BFS oracle",
+   design_ref="4/C15, 10.5"),
  "C11": dict(level="exploration", engine="E3 enum",
    text="Models from two complete sources: every corpus string the real parser accepts (773 queries; 749 of them translate and feed walk.PgSQL) and synthetic instances generated by "
         "reflection from the struct definitions of cypher/models/cypher (56 node types, 113 fields; zero instance, every field over {nil, empty, one, two}, every node type as child of "
